@@ -9,7 +9,8 @@ out: {"valid":bool, "failedAt":index|null, "failedAct":name, "delivered":[canoni
       "enabled":[action names enabled in the last state reached]}
 The model is run on the schedule; at the first action that is not enabled the run stops and the state reached so
 far is reported. Event kinds: 0 resolves, 1 the root field's resolver fails, 2 a nullable leaf fails, 3 a non-null
-leaf yields null. Canonical result = {"data":…, "errs":[{"path":[…],"ctx":bool}…]} (messages dropped). -/
+leaf yields null; 4 nil, 5 empty map, 6 typed nil pointer, 7 false, 8 the int 0, 9 "", 10 empty slice (the root
+resolver reports which of these it saw: 41,41,42,43,44,45,46 as `n`). Canonical result = {"data":…, "errs":[{"path":[…],"ctx":bool}…]} (messages dropped). -/
 open Lean GqlModel.Subscription
 
 namespace Driver.C15
@@ -33,7 +34,13 @@ def canonical : R → Json
   | .mapped 1 _ => Json.mkObj [("data", Json.mkObj [("tick", Json.null)]), ("errs", Json.arr #[errEntry ["tick"] false])]
   | .mapped 2 n => Json.mkObj [("data", Json.mkObj [("tick", Json.mkObj [("n", Json.num (n : JsonNumber)), ("twice", Json.null), ("must", Json.num 1)])]),
                               ("errs", Json.arr #[errEntry ["tick", "twice"] false])]
-  | .mapped _ _ => Json.mkObj [("data", Json.mkObj [("tick", Json.null)]), ("errs", Json.arr #[errEntry ["tick", "must"] false])]
+  | .mapped 3 _ => Json.mkObj [("data", Json.mkObj [("tick", Json.null)]), ("errs", Json.arr #[errEntry ["tick", "must"] false])]
+  | .mapped k _ =>
+    -- closure look-alike payloads: the root resolver reports what it was given (nil arrives as an empty map)
+    let code : Nat := match k with
+      | 4 => 41 | 5 => 41 | 6 => 42 | 7 => 43 | 8 => 44 | 9 => 45 | _ => 46
+    Json.mkObj [("data", Json.mkObj [("tick", Json.mkObj [("n", Json.num (code : JsonNumber)), ("twice", Json.num ((2 * code : Nat) : JsonNumber)), ("must", Json.num 1)])]),
+                ("errs", Json.arr #[])]
   | .ctx => Json.mkObj [("data", Json.null), ("errs", Json.arr #[errEntry [] true])]
   | .opaque s => match Json.parse s with
     | .ok j => j
